@@ -66,7 +66,7 @@ fn must_accept(name: &str) -> bool {
 pub fn fixed_names() -> Vec<String> {
     let mut v: Vec<String> = [
         "a", "A", "Binary.a", "Binary", "Icon", "Z9", "Icon.AppIcon.ico", "_x", "0", "00", "a b", "a-b", "(x)", "$", "¿Qué pasa?", "é", "É", "ñ", "日本", "日本語.cab", "\u{3800}", "\u{3801}", "\u{47ff}", "\u{4800}",
-        "\u{483f}", "\u{4840}", "\u{4840}X", "X\u{4840}", "\u{4841}", "/", "/X", "X/", "a/b", "a/../X", "..", ".", "./X", "a\\b", "a:b", ":", "a!b", "!", "\0", "a\0b", "\u{5}SummaryInformation",
+        "\u{483f}", "\u{4840}", "\u{4840}X", "X\u{4840}", "\u{4841}", "/", "/X", "X/", "a/b", "a/../X", "..", ".", "./X", "a\\b", "a:b", ":", "a!b", "!", "\0", "a\0b", "\u{5}SummaryInformation", "\u{5}Notes", "\u{5}", "\u{5}DigitalSignature2",
         "\u{5}DigitalSignature", "\u{5}MsiDigitalSignatureEx", "\u{5}DocumentSummaryInformation", "_StringPool", "_StringData", "_Tables", "_Columns", "T1", "", " ", "straße", "STRASSE", "ǆ", "ǅ",
         "\u{10000}", "😀", "\u{fffd}", "\u{feff}x",
     ]
